@@ -6,6 +6,7 @@ import (
 	"fmt"
 	"go/types"
 	"sort"
+	"strings"
 
 	"golang.org/x/tools/go/ssa"
 )
@@ -121,7 +122,13 @@ func (u *Unit) setElemsArr(st *State, ref *Term, elem types.Type, arr *Term) {
 func (u *Unit) subRef(dt *structDT, field int, ref *Term) *Term {
 	name := "sub_" + dt.named + "_" + sanitize(dt.fields[field].name)
 	u.m.UF(name, SInt, SInt)
-	return u.m.tb.App(name, SInt, ref)
+	r := u.m.tb.App(name, SInt, ref)
+	if !u.quiet && !r.bound {
+		tb := u.m.tb
+		u.m.UF("Alloc0", SBool, SInt)
+		u.assume(tb.True(), tb.And(tb.Eq(tb.App("Alloc0", SBool, r), tb.App("Alloc0", SBool, ref)), tb.Implies(tb.Lt(tb.Int(0), ref), tb.Lt(tb.Int(0), r))))
+	}
+	return r
 }
 
 func isStructType(t types.Type) bool {
@@ -136,7 +143,35 @@ func (u *Unit) loadField(st *State, ref *Term, dt *structDT, i int) *Term {
 		return u.loadStruct(st, u.subRef(dt, i, ref), f.typ)
 	}
 	arr := u.heapGet(st, dt.heapKey(i), SArr(SInt, f.sort))
-	return u.m.tb.Select(arr, ref)
+	v := u.m.tb.Select(arr, ref)
+	u.assumeEntryAllocated(arr, v, f.typ)
+	return v
+}
+
+// assumeEntryAllocated: references read from the entry heap denote objects
+// that existed when the function was entered (never this function's own
+// allocations).
+func (u *Unit) assumeEntryAllocated(arr, v *Term, t types.Type) {
+	if u.quiet || v.bound || len(arr.args) != 0 || !strings.HasSuffix(arr.op, "@0") {
+		return
+	}
+	tb := u.m.tb
+	var ref *Term
+	switch tt := t.Underlying().(type) {
+	case *types.Slice:
+		ref = u.m.SliceRef(v)
+	case *types.Pointer:
+		if !isStructType(tt.Elem()) {
+			return
+		}
+		ref = v
+	case *types.Map:
+		ref = v
+	default:
+		return
+	}
+	u.m.UF("Alloc0", SBool, SInt)
+	u.assume(tb.True(), tb.Or(tb.Eq(ref, tb.Int(0)), tb.App("Alloc0", SBool, ref)))
 }
 
 func (u *Unit) storeField(st *State, ref *Term, dt *structDT, i int, v *Term) {
@@ -196,7 +231,7 @@ func (u *Unit) loadBase(st *State, p *Ptr) Val {
 	case pElem:
 		et := p.base
 		arr := u.elemsArr(st, u.m.SliceRef(p.slice), et)
-		return u.m.tb.Select(arr, u.m.IxAdd(u.m.SliceOff(p.slice), p.idx))
+		return u.m.tb.Select(arr, u.m.ElemIx(u.m.SliceOff(p.slice), p.idx))
 	case pGlobal:
 		return u.globalValue(p.glob)
 	case pSeqElem:
@@ -215,7 +250,7 @@ func (u *Unit) storeBase(st *State, p *Ptr, v Val) {
 		et := p.base
 		ref := u.m.SliceRef(p.slice)
 		arr := u.elemsArr(st, ref, et)
-		u.setElemsArr(st, ref, et, u.m.tb.Store(arr, u.m.IxAdd(u.m.SliceOff(p.slice), p.idx), v.(*Term)))
+		u.setElemsArr(st, ref, et, u.m.tb.Store(arr, u.m.ElemIx(u.m.SliceOff(p.slice), p.idx), v.(*Term)))
 	case pGlobal:
 		panic(u.errf("store to global %s is outside the subset", p.glob.Name()))
 	}
@@ -237,8 +272,8 @@ func (u *Unit) load(st *State, p *Ptr) Val {
 			t = t.Underlying().(*types.Array).Elem()
 		}
 	}
-	if tv, ok := v.(*Term); ok {
-		u.assume(st.guard, u.m.InRange(tv, p.typ))
+	if tv, ok := v.(*Term); ok && !u.quiet {
+		u.assumeTyping(st.guard, tv, p.typ)
 	}
 	return v
 }
